@@ -34,7 +34,7 @@ Scripts == {[id |-> 1, parse |-> "ok", stmts |-> <<[id |-> 1, cols |-> Cols(n), 
 OtherQ == [id |-> 2, parse |-> "ok", stmts |-> <<[id |-> 2, cols |-> <<>>, oids |-> <<>>, prog |-> <<Done, RetNil>>]>>]
 
 CopyAlphabet == {[t |-> "d", dig |-> "s:k1"], [t |-> "d", dig |-> "s:k2"], [t |-> "c"], [t |-> "f"], [t |-> "H"], [t |-> "S"],
-                 [t |-> "Q", q |-> OtherQ], [t |-> "U"], [t |-> "X"], [t |-> "Big", ty |-> "d", over |-> "1"],
+                 [t |-> "Q", q |-> OtherQ], [t |-> "U"], [t |-> "X"], [t |-> "Big", ty |-> "d", over |-> "1"], [t |-> "C", kind |-> "P", name |-> ""],
                  [t |-> "P", name |-> "", q |-> OtherQ, noids |-> 0], [t |-> "E", portal |-> "", max |-> 0]}
 
 StartupMsg == [t |-> "Startup", term |-> TRUE, kvs |-> <<[k |-> "user", v |-> "u"]>>]
